@@ -309,8 +309,8 @@ section Admit
 open CpModel.C20Admit
 
 /-- generic form (any transition system, any observation function, any duplicate key) -/
-theorem C20_admitted_trace_is_model_run {σ τ : Type} (step : σ → τ → σ) (en : σ → τ → Bool)
-    (obs : σ → String) (key : σ → String) (fuel : Nat) (c0 : σ) (o0 : String) (tr : List (τ × String))
+theorem C20_admitted_trace_is_model_run {σ τ ο : Type} [DecidableEq ο] (step : σ → τ → σ)
+    (en : σ → τ → Bool) (obs : σ → ο) (key : σ → String) (fuel : Nat) (c0 : σ) (o0 : ο) (tr : List (τ × ο))
     (h : admitsInit step en obs key fuel c0 o0 tr = true) :
     obs c0 = o0 ∧ ∃ cs : List σ, Follows step obs c0 tr cs ∧ cs.map obs = tr.map (·.2) ∧
       ∃ sched : List τ, cs.getLast? = (if tr.isEmpty then none else some (sched.foldl step c0)) := by
@@ -321,10 +321,10 @@ theorem C20_admitted_trace_is_model_run {σ τ : Type} (step : σ → τ → σ)
 /-- M (repaired protocol): at every observed point of an admitted trace the monitor state is a
     reachable model state with the recorded observation, hence at most one armed worker, at most one
     more invocation after `stop()` returned, exactly one armed worker after start/graceful, no crash -/
-theorem C20_admitted_M_safe (p : Params) (calls : List Call) (o0 : String)
-    (tr : List (Tid × String)) (hp : p.mode = .fixed)
-    (h : admitsInit (step p) enabled obsStr keyStr FUEL (init calls) o0 tr = true) :
-    ∃ cs : List Cfg, cs.map obsStr = tr.map (·.2) ∧
+theorem C20_admitted_M_safe (p : Params) (calls : List Call) (o0 : Obs)
+    (tr : List (Tid × Obs)) (hp : p.mode = .fixed)
+    (h : admitsInit (step p) enabled obs keyStr FUEL (init calls) o0 tr = true) :
+    ∃ cs : List Cfg, cs.map obs = tr.map (·.2) ∧
       ∀ c ∈ cs, ReachAll p calls c ∧ OneWorker p c ∧ AtMostOnce c ∧ GracefulLeavesOne p c ∧
         c.cpc ≠ .crashed := by
   obtain ⟨_, cs, hf⟩ := C20Admit.admitsInit_sound _ _ _ _ _ _ _ _ h
